@@ -192,6 +192,10 @@ def check_load_paths(ctx, tz, name, path, data, rz, rng):
     g = tz.gettz(name)
     if g is not None and isinstance(g, tz.tzfile):
         zs['gettz'] = g
+    elif os.path.exists(os.path.join('/usr/share/zoneinfo', name)) and not name.startswith('/'):
+        # a name of the database loads the file of that name, whatever the name is ('UTC' and 'GMT' included)
+        ctx.ev()
+        ctx.violation('load-path-by-name', {'zone': name, 'load_path': 'gettz'}, 'gettz(%r) returned %r, not the tzfile of that name' % (name, g))
     g = tz.gettz(path)
     if g is not None:
         zs['gettz-abspath'] = g
@@ -340,6 +344,15 @@ def run(ctx):
         # load paths on a few real files per shard
         for name, path, data, rz, sh in mine[:6]:
             check_load_paths(ctx, tz, name, path, data, rz, rng)
+        if ctx.shard == 0:
+            # directed: the names that look like designators are names of database files like any other
+            for name in ('UTC', 'GMT', 'Etc/UTC', 'Zulu', 'GMT0', 'Etc/GMT+5', 'EST'):
+                path = os.path.join('/usr/share/zoneinfo', name)
+                if os.path.isfile(path):
+                    with open(path, 'rb') as f:
+                        data = f.read()
+                    check_load_paths(ctx, tz, name, path, data, tzif_ref.RefZone(data), rng)
+                    ctx.count('loadpath_designator_like_names')
         if mine:
             for metadata, links_first in (('last', False), ('none', False), ('first', False), ('last', True), ('none', True)):
                 check_archive(ctx, tz, [(n, p, d, r) for n, p, d, r, s in mine[:5]], rng, metadata, links_first)
@@ -387,7 +400,7 @@ def floors(agg, tier):
             out.append('no real file with shape %s was reached' % s)
     for k in ('loadpath_path', 'loadpath_stream', 'loadpath_gettz', 'loadpath_pickle', 'loadpath_copy', 'loadpath_deepcopy',
               'loadpath_archive', 'loadpath_archive_link', 'loadpath_archive_pickle', 'archives_metadata_last', 'archives_metadata_none',
-              'archives_metadata_first', 'archives_links_first'):
+              'archives_metadata_first', 'archives_links_first', 'loadpath_designator_like_names'):
         if c.get(k, 0) < 4:
             out.append('load path %s exercised only %d times' % (k, c.get(k, 0)))
     for k in ('tzfile.fromutc', 'tzfile.utcoffset', 'tzfile.tzname', 'tzfile.dst'):
